@@ -66,14 +66,23 @@ def c16f_margins (tol top : Rat) (x y xs ys : List Rat) (k delta : Rat) : Option
     | .ok (xp, yp) =>
       match c16f_interp xs xp yp with
       | .error _ => none
-      | .ok v => some (((v.zip ys).zip xs).map fun p =>
+      | .ok v =>
+        let ord := ((v.zip ys).zip xs).map fun p =>
           let m := absR16 (p.1.1 - p.1.2)
           let val := p.1.1
           if c16f_interpExact p.2 (xp.zip yp) then
             -- a table ordinate: `0`, `1` and `top` are the same floats on both sides; any other is
             -- `y + delta * k` rounded once or twice
             (m, !(decide (val = 0) || decide (val = 1) || decide (val = top)) && decide (m ≤ tol / 1000))
-          else (m, decide (m ≤ tol)))
+          else (m, decide (m ≤ tol))
+        -- abscissa ties: a displaced knot `x + delta` (rounded once in floating point; `0`, `1`, `top` are exact)
+        -- within `tol / 1000` of an evaluation point: whether the point falls on the knot, just before or just
+        -- after it is decided by that rounding, and at a repeated knot (a vertical piece of the curve) the
+        -- interpolated value jumps there
+        let knots := xp.filter fun a => !(decide (a = 0) || decide (a = 1) || decide (a = top))
+        let absc := xs.flatMap fun e =>
+          (knots.filter fun a => decide (absR16 (e - a) ≤ tol / 1000)).map fun a => (absR16 (e - a), true)
+        some (ord ++ absc)
   match one (delta * 1) (delta * k), one (-delta * 1) (-delta * k) with
   | some a, some b => some (a ++ b)
   | _, _ => none
